@@ -23,7 +23,7 @@ def link_fault_items(rng, timeout_ns, prev_keys, version, agent_cfg, lat):
             if version == "v3":
                 it["rewrite"] = {"user": rng.choice([b"other".hex(), b"".hex(), b"U1".hex()])}
             else:
-                it["rewrite"] = {"community": rng.choice([b"other".hex(), b"".hex(), b"PUBLIC".hex(), b"public0".hex()])}
+                it["rewrite"] = {"community": rng.choice([b"other".hex(), b"".hex(), b"PUBLIC".hex(), b"public0".hex(), b"caf\xe9".hex(), b"caf\xff".hex(), b"caf\xc3".hex()])}
         elif kind == "msgid-or-version":
             if version == "v3":
                 it["rewrite"] = {"msg-id": rng.choice(["prev", "zero", "plus1", "xor1", "bit31", "bit32", rng.randrange(2**31)])}
